@@ -149,7 +149,7 @@ def build():
     # play_tone(frequency)  - no duration: keeps sounding
     reg.unit(info["tone_nodur"]["pyname"], FW, params=dict(info["tone_nodur"]["params"]), public=False,
              requires=PIN + FR("frequency"), modifies=MOD,
-             ensures=["implies(frequency <= 0, tones == old(tones) and sounding == False and " + f"{S} == False and {CUR} == 0)",
+             ensures=["implies(frequency <= 0, tones == old(tones) and sounding == False and " + f"{S} == False and {CUR} == 0 and {LAST} == old({LAST}))",
                       f"implies(frequency > 0, tones == old(tones) + 1 and sounding and {S} and {CUR} == frequency and {LAST} == frequency "
                       f"and E == old(E) + [ev(3, __pin, {HZ('frequency')})])", "delayed == old(delayed)"])
     reg.unit(info["stop"]["pyname"], FW, params=dict(info["stop"]["params"]), public=False, requires=PIN, modifies=MOD,
@@ -170,21 +170,24 @@ def build():
                                     f"tones == old(tones) + ite({fexp} > 0, k, 0)",
                                     f"implies({fexp} > 0, E == beep_trace(old(E), __pin, {HZ(fexp)}, trunc(on_ms), trunc(off_ms), times, k))",
                                     "implies(k > 0, sounding == False and " + f"{S} == False and {CUR} == 0)",
-                                    f"implies(k == 0, sounding == old(sounding) and {S} == old({S}) and {CUR} == old({CUR}))"]}},
+                                    f"implies(k == 0, sounding == old(sounding) and {S} == old({S}) and {CUR} == old({CUR}))",
+                                    f"implies(k == 0 or not ({fexp} > 0), {LAST} == old({LAST}))"]}},
                  ensures=[f"tones == old(tones) + ite({fexp} > 0, times, 0)",
                           "implies(times > 0, sounding == False and " + f"{S} == False and {CUR} == 0)",
                           f"implies({fexp} > 0, E == beep_trace(old(E), __pin, {HZ(fexp)}, trunc(on_ms), trunc(off_ms), times, times))",
-                          f"implies({fexp} > 0 and times > 0, {LAST} == {fexp})"],
+                          f"implies({fexp} > 0 and times > 0, {LAST} == {fexp})",
+                          # "get_last_frequency reports the tone last sounded": a call that sounds nothing leaves it alone
+                          f"implies(not ({fexp} > 0 and times > 0), {LAST} == old({LAST}))"],
                  note=f"frequency source in the emitted text: {src_expr}")
     for lname in ("zero_f", "zero_i", "neg"):
         tr = info["beep_lit_" + lname]
         reg.unit(tr["pyname"], FW, params=dict(tr["params"]), public=False,
                  requires=PIN + DUR("on_ms") + DUR("off_ms") + ["0 <= times <= 32000", f"{LAST} < 65000", "__deff < 65000"], modifies=MOD,
-                 loops={0: {"inv": ["0 <= __redu_i <= __redu_times", "k == __redu_i", "__redu_times == times", "tones == old(tones)", "__redu_freq_target <= 0"]}},
-                 ensures=["tones == old(tones)"], note=f"beep with the literal frequency class '{lname}' (<= 0): no tone is started")
+                 loops={0: {"inv": ["0 <= __redu_i <= __redu_times", "k == __redu_i", "__redu_times == times", "tones == old(tones)", "__redu_freq_target <= 0", f"{LAST} == old({LAST})"]}},
+                 ensures=["tones == old(tones)", f"{LAST} == old({LAST})"], note=f"beep with the literal frequency class '{lname}' (<= 0): no tone is started")
         tr = info["tone_lit_" + lname]
         reg.unit(tr["pyname"], FW, params=dict(tr["params"]), public=False, requires=PIN + DUR("duration_ms") + [f"{LAST} < 65000"], modifies=MOD,
-                 ensures=["tones == old(tones)"], note=f"play_tone with the literal frequency class '{lname}' (<= 0): no tone is started")
+                 ensures=["tones == old(tones)", f"{LAST} == old({LAST})"], note=f"play_tone with the literal frequency class '{lname}' (<= 0): no tone is started")
     # sweep
     F = lambda i: "(max(0, start_hz) + (max(0, end_hz) - max(0, start_hz)) * ite(local_steps == 1, 1.0, real(" + i + ") / (local_steps - 1)))"
     reg.unit(info["sweep"]["pyname"], FW, params=dict(info["sweep"]["params"]), public=False,
